@@ -349,7 +349,7 @@ def C19(ctx):
                      'wire show on the programs with named sets of families G, K, U, M compared with WireShow (included sets, outputs grouped by their external inputs, injector list); '
                      'command histories of WireCli with CkCheck; non-trivial = rejected programs (check must fail too) and sets with at least two output groups')
     nt = lambda c: verdict(c) == 'no' or any(len(s['groups']) >= 2 for s in (c.get('show') or {}).get('sets', []))
-    fams = [(G(3), 500), ('FamilyK(p, KTypes)', 250), ('FamilyQ(p, 3)', 472), ('FamilyB(p)', 250), ('FamilyU(p)', 100), ('FamilyGSplit(p, 3)', 400)]
+    fams = [(G(3), 500), ('FamilyK(p, KTypes)', 250), ('FamilyQ(p, 3)', 472), ('FamilyB(p)', 250), ('FamilyU(p)', 100), ('FamilyGSplit(p, 3)', 400), ('FamilyX(p, XVariants)', 100)]
     for expr, k in fams:
         cases = ctx.export(expr, extends='WireShow', caseop='CaseShow', pre_sample=(k if ctx.quick else None))
         ctx.run(cases, nontrivial=nt, runtime=False, check=True, show=True)
